@@ -296,8 +296,15 @@ def _write_tab(path, cols, rows):
 
 def _check_multi(case):
     from cnvlib import export
+    from vk import gen
 
     out = []
+    # where on the chromosomes the shared bins sit (near the start, human-chromosome scale, beyond 2^31): a pure function
+    # of the case (seeded change C20h compared bin coordinates with a relative tolerance, so 1-bp differences at large
+    # coordinates were merged instead of refused)
+    off = gen.offset_for(case)
+    if off:
+        case = dict(case, bins=[[b[0], b[1] + off, b[2] + off, b[3]] for b in case["bins"]])
 
     def bad(clause, detail):
         out.append({"clause": clause, "detail": f"{detail}; bins={case['bins'][:6]} fault={case['fault']} ids={[s['id'] for s in case['samples']]}"})
